@@ -138,7 +138,16 @@ def typestate(ctx):
         # effects
         close_states = {s: v.asserted(v.fsm_leaves(R.fsm, s), R.close) for s in R.fsm.states}
         open_states = {s: v.asserted(v.fsm_leaves(R.fsm, s), R.open) for s in R.fsm.states}
-        gnt_states = {s for s in R.fsm.states if v.asserted(v.fsm_leaves(R.fsm, s), R.refresh_gnt)}
+        gnt_sites = {s: v.asserted(v.fsm_leaves(R.fsm, s), R.refresh_gnt) for s in R.fsm.states}
+        gnt_sites = {s: ls_ for s, ls_ in gnt_sites.items() if ls_}
+        gnt_states = set(gnt_sites)
+        rrk = key(R.refresh_req)
+
+        def contradict(g1, g2):
+            return any((("~" + x) in g2) or (x.startswith("~") and x[1:] in g2) for x in g1)
+        # a hold state presents no command and is left only when the refresher releases its request
+        hold = {s for s in R.fsm.states if not v.asserted(v.fsm_leaves(R.fsm, s), cmdk + ".valid")
+                and [1 for (src, d, l) in R.edges if src == s] and all(("~" + rrk) in v.guard_keys(l, False) for (src, d, l) in R.edges if src == s)}
         a10 = None
         for l in v.drivers(cmdk + ".a"):
             for t in subterms(l.value):
@@ -172,8 +181,14 @@ def typestate(ctx):
                     an = 1 if role == "ACT" else 0
                 elif role == "COL" and a10 is not None and key(a10) in E and ready in E:
                     an = 0
-                elif s in gnt_states:
-                    an = 0
+                elif s in gnt_sites:
+                    gs_ = [v.guard_keys(x, False) for x in gnt_sites[s]]
+                    if s in hold and ("~" + rrk) in E:
+                        an = 0              # protocol: the refresher releases its request only after every bank machine has granted
+                    elif any(g_ <= E for g_ in gs_):
+                        an = 0
+                    elif any(not contradict(g_, E) for g_ in gs_):
+                        return {(x, y) for x in bs for y in (a, 0)}     # the grant may or may not have been given on this edge
             return {(x, an) for x in bs}
 
         reach = {n: set() for n in nodes}
@@ -242,25 +257,39 @@ def typestate(ctx):
                 ob.refute("row-sel", "the ACT state does not select the row address onto cmd.a", sel_row[0].loc)
             if "cmd_buffer.source.addr" not in terms["latched"]:
                 ctx.assume("row term is not taken from the queue head `cmd_buffer.source.addr` (renamed?): %s" % terms["latched"])
-        # refresh state
-        for s in gnt_states:
+        # refresh grant sites: while the grant is given no command is presented, and after it nothing happens until the refresher releases its request
+        for s, sites in sorted(gnt_sites.items()):
             ls = v.fsm_leaves(R.fsm, s)
-            outs = [(d, v.guard_keys(l, False)) for (src, d, l) in R.edges if src == s]
-            rr = "~" + key(R.refresh_req)
-            facts = {"row_close": bool(v.asserted(ls, R.close)) and any(not l.guards for l in v.asserted(ls, R.close)),
-                     "no_cmd": not v.asserted(ls, cmdk + ".valid"), "exits": [(d, sorted(g)) for d, g in outs]}
-            ob.instance("%s: refresh-grant state %s" % (tag, s), facts)
-            if not facts["row_close"]:
-                ob.refute("refresh-no-close:%s" % s, "refresh-grant state %s does not clear the row-opened register although precharge-all "
-                          "closes the bank" % s, ls[0].loc)
-            if not facts["no_cmd"]:
-                ob.refute("refresh-cmd:%s" % s, "refresh-grant state %s presents a command" % s, ls[0].loc)
-            if not outs or any(rr not in g for d, g in outs):
-                ob.refute("refresh-exit:%s" % s, "refresh-grant state %s can be left while refresh_req is still high (%s)" % (s, outs), ls[0].loc)
-        # REFRESH entered only from a state/edge where no command is in flight: entry edges come from the COL state under refresh_req
+            outs = [(d, v.guard_keys(l, False), l) for (src, d, l) in R.edges if src == s]
+            for site in sites:
+                g = v.guard_keys(site, False)
+                cmds = [c for c in v.asserted(ls, cmdk + ".valid") if not contradict(v.guard_keys(c, False), g)]
+                facts = {"grant under": sorted(g), "hold state": s in hold, "commands compatible with the grant": [str(c)[:80] for c in cmds],
+                         "exits": [(d, sorted(e)) for d, e, _ in outs]}
+                ob.instance("%s: refresh grant in state %s" % (tag, s), facts)
+                if cmds:
+                    ob.refute("refresh-cmd:%s" % s, "state %s can present a command (%s) in the cycle in which it grants the refresh (grant under %s)" %
+                              (s, str(cmds[0])[:100], sorted(g)), site.loc)
+                if s in hold:
+                    continue
+                # not a hold state: the grant must be followed at once by a move into a hold state (or by the release of the request)
+                comp = [(d, e, l) for d, e, l in outs if not contradict(e, g)]
+                forced = [(d, e, l) for d, e, l in comp if e <= g]
+                if not forced:
+                    ob.refute("refresh-exit:%s" % s, "state %s grants the refresh under %s but no transition is forced in that cycle (exits %s): the bank machine can go on "
+                              "issuing commands while the refresher runs" % (s, sorted(g), [(d, sorted(e)) for d, e, _ in outs]), site.loc)
+                for d, e, l in comp:
+                    if ("~" + rrk) in e or d in hold:
+                        continue
+                    ob.refute("refresh-exit:%s" % s, "after granting the refresh in state %s the FSM can move to %s (under %s), which is not a state that waits for the "
+                              "refresher to release its request" % (s, d, sorted(e)), l.loc)
+        # a hold state that grants is entered only under the refresh request
         for (src, d, l) in R.edges:
-            if d in gnt_states and key(R.refresh_req) not in v.guard_keys(l, False):
+            if d in gnt_states and d in hold and rrk not in v.guard_keys(l, False):
                 ob.refute("refresh-entry:%s" % src, "refresh state entered from %s without refresh_req" % src, l.loc)
+        if not (gnt_states & hold):
+            ob.refute("refresh-exit:none", "no state both grants the refresh and waits for the request to be released: after the refresh sequence the bank machines' "
+                      "view of their rows is not re-synchronised", None)
 
 
 def auto_precharge(ctx):
